@@ -40,24 +40,54 @@ const (
 	cIter   = 64.0            // iterative ones (qrAlgorithm, eigensystem, svd): max|A - product| <= (cIter * n * eps + n * Epsilon_option) * |A|_F
 	cOrth   = 16.0            // max|Q^T Q - I| <= cOrth * n * eps   (x kappa_2(A) for Gram-Schmidt; cIter for the iterative routines)
 	cSqrt   = 64.0            // msqrt / msqrtInv: max|X X - A| <= cSqrt * n * eps * kappa_2(A) * |A|_F,  max|X A X - I| <= cSqrt * n * eps * kappa_2(A)
-	pdShare = 0.1             // ForcePD: L D L^T = A is demanded when lambda_min(A) >= pdShare * |A|_2
+	pdShare = 0.01            // ForcePD: L D L^T = A is demanded when lambda_min(A) >= pdShare * |A|_2 (in exact arithmetic the modified factorization leaves EVERY positive definite matrix unchanged: theta_j^2/beta^2 <= c_jj)
 )
 
 type elemT struct {
-	Name string
-	T    ad.ScalarType
+	Name   string
+	T      ad.ScalarType
+	Eps    float64 // unit round-off of the storage type
+	Sparse bool    // input held in a sparse container (defeats the Float32/Float64 fast paths)
 }
 
-var types = []elemT{{"Float64", ad.Float64Type}, {"Real64", ad.Real64Type}}
+var types = []elemT{{"Float64", ad.Float64Type, eps, false}, {"Real64", ad.Real64Type, eps, false}}
+
+// cholTypes: the Cholesky family has specialised Float32 / Float64 code and a
+// generic path (Real32, Real64, any non-dense container): all of them are driven.
+var cholTypes = []elemT{
+	{"Float32", ad.Float32Type, 1.0 / (1 << 24), false},
+	{"Float64", ad.Float64Type, eps, false},
+	{"Real32", ad.Real32Type, 1.0 / (1 << 24), false},
+	{"Real64", ad.Real64Type, eps, false},
+	{"SparseFloat64", ad.Float64Type, eps, true},
+	{"SparseReal64", ad.Real64Type, eps, true},
+}
+
+// image rounds a reference matrix to what the element type can hold.
+func image(t elemT, m *la.Mat) *la.Mat {
+	if t.Eps < 1e-10 {
+		return m
+	}
+	o := m.Clone()
+	for i, v := range o.A {
+		o.A[i] = float64(float32(v))
+	}
+	return o
+}
 
 func build(t elemT, m *la.Mat) ad.Matrix {
-	r := ad.NullDenseMatrix(t.T, m.R, m.C)
-	for i := 0; i < m.R; i++ {
-		for j := 0; j < m.C; j++ {
-			r.At(i, j).SetFloat64(m.At(i, j))
+	if t.Sparse {
+		r := ad.NullSparseMatrix(t.T, m.R, m.C)
+		for i := 0; i < m.R; i++ {
+			for j := 0; j < m.C; j++ {
+				if v := m.At(i, j); v != 0 {
+					r.At(i, j).SetFloat64(v)
+				}
+			}
 		}
+		return r
 	}
-	return r
+	return buildInput(t, m)
 }
 
 func read(m ad.ConstMatrix) *la.Mat {
@@ -90,6 +120,8 @@ func isNil(m ad.Matrix) bool {
 	case *ad.DenseFloat32Matrix:
 		return p == nil
 	case *ad.DenseReal64Matrix:
+		return p == nil
+	case *ad.DenseReal32Matrix:
 		return p == nil
 	}
 	return false
@@ -379,7 +411,7 @@ func runCholesky(t elemT, A *la.Mat, mode string, is *cholesky.InSitu) verdict {
 	c := newChecker()
 	c.w["L"] = L.Rows()
 	nrm := A.NormFro()
-	tol := cDirect * float64(n) * eps * nrm
+	tol := cDirect * float64(n) * t.Eps * nrm
 	if !L.Finite() || D != nil && !D.Finite() {
 		c.fail("non-finite", "non-finite factor")
 		return c.verdict()
@@ -419,7 +451,7 @@ func runCholesky(t elemT, A *la.Mat, mode string, is *cholesky.InSitu) verdict {
 	Ms.Symmetrize()
 	lam, _ := la.SymEig(Ms)
 	c.w["eig(L*D*L^T)"] = lam
-	c.le("not-positive-definite", "-lambda_min(L*D*L^T)", -lam[0], cDirect*float64(n)*eps*M.NormFro())
+	c.le("not-positive-definite", "-lambda_min(L*D*L^T)", -lam[0], cDirect*float64(n)*t.Eps*M.NormFro())
 	la0, _ := la.SymEig(A)
 	norm2 := math.Max(math.Abs(la0[0]), math.Abs(la0[n-1]))
 	c.w["eig(A)"] = la0
@@ -813,7 +845,17 @@ func runEigensystem(t elemT, in sqInput, o eigOpts, is *eigensystem.InSitu) verd
 		args = append(args, is)
 	}
 	var lam []float64
-	var V *la.Mat
+	var V, pre *la.Mat
+	if is != nil && !isNil(is.Eigenvectors) && vx.on {
+		// caller-supplied buffer: put fresh unrelated numbers into it, to recognise a buffer nobody wrote to
+		pre = la.New(n, n)
+		for i := 0; i < n; i++ {
+			for j := 0; j < n; j++ {
+				pre.Set(i, j, 1000+float64(10*i+j))
+				is.Eigenvectors.At(i, j).SetFloat64(pre.At(i, j))
+			}
+		}
+	}
 	if v, ok := guard(tickBudget(n), func() error {
 		e, vec, err := eigensystem.Run(build(t, A), args...)
 		if err == nil {
@@ -876,6 +918,10 @@ func runEigensystem(t elemT, in sqInput, o eigOpts, is *eigensystem.InSitu) verd
 		return c.verdict()
 	}
 	c.w["eigenvectors"] = V.Rows()
+	if pre != nil && sameColumns(pre, V) {
+		c.fail("eigenvector-buffer-not-written", "the caller-supplied InSitu.Eigenvectors buffer is returned with its old content: no eigenvector was stored in it")
+		return c.verdict()
+	}
 	// A v = lambda v for every real eigenvalue: lambda_j is (numerically) a
 	// real eigenvalue iff sigma_min(A - lambda_j I) is at rounding level
 	judged := 0
@@ -990,13 +1036,49 @@ func runEigensystem(t elemT, in sqInput, o eigOpts, is *eigensystem.InSitu) verd
 	for _, j := range realIdx {
 		r := resid(j, j)
 		if math.IsInf(r, 1) {
-			c.fail("eigenvector-non-finite", fmt.Sprintf("eigenvector %d of the real eigenvalue %.17g is zero or has non-finite entries", j, lam[j]))
+			copies := 0
+			for i := 0; i < n; i++ {
+				if math.Abs(lam[i]-lam[j]) <= float64(n)*tol {
+					copies++
+				}
+			}
+			if copies > 1 {
+				c.fail("eigenvector-non-finite(repeated-eigenvalue)", fmt.Sprintf("eigenvector %d of the real eigenvalue %.17g, which is returned %d times (repeated within rounding), is zero or has non-finite entries", j, lam[j], copies))
+			} else {
+				c.fail("eigenvector-non-finite", fmt.Sprintf("eigenvector %d of the real eigenvalue %.17g is zero or has non-finite entries", j, lam[j]))
+			}
 			continue
 		}
 		c.le("eigenpair", fmt.Sprintf("max|A*v - lambda*v|/|v|_2 (pair %d)", j), r, float64(n)*tol)
 	}
 	c.w["real eigenpairs judged"] = judged
 	return c.verdict()
+}
+
+// sameColumns: b consists of the columns of a in some order.
+func sameColumns(a, b *la.Mat) bool {
+	if a.R != b.R || a.C != b.C {
+		return false
+	}
+	col := func(m *la.Mat, j int) string {
+		s := ""
+		for i := 0; i < m.R; i++ {
+			s += fmt.Sprintf("%v,", m.At(i, j))
+		}
+		return s
+	}
+	seen := map[string]int{}
+	for j := 0; j < a.C; j++ {
+		seen[col(a, j)]++
+	}
+	for j := 0; j < b.C; j++ {
+		k := col(b, j)
+		if seen[k] == 0 {
+			return false
+		}
+		seen[k]--
+	}
+	return true
 }
 
 // isolatedWellConditioned: lambda (already subtracted: m = A - lambda I, sv its
